@@ -199,12 +199,13 @@ func (b *Builder) epsilonClosureOnePass(root nfa.StateID) ([]closureEntry, bool,
 			b.matchMask = slots
 
 		case nfa.StateSplit:
-			// Follow both epsilon paths
+			// Follow both epsilon paths. The preferred (left) branch is pushed last so
+			// that it is popped first: the closure is listed in priority order.
 			left, right := state.Split()
-			if err := b.stackPush(left, slots); err != nil {
+			if err := b.stackPush(right, slots); err != nil {
 				return nil, false, err
 			}
-			if err := b.stackPush(right, slots); err != nil {
+			if err := b.stackPush(left, slots); err != nil {
 				return nil, false, err
 			}
 
@@ -282,9 +283,20 @@ func (b *Builder) buildTransitions(tableIdx int, closure []closureEntry) error {
 	// Key: byte class, Value: target NFA state + source slots
 	byteTransitions := make(map[byte]transInfo)
 
+	// Leftmost-first: the closure is in priority order, so byte transitions listed
+	// after the match state are less preferred than stopping here and are never
+	// taken (this is how alternation order and lazy repetitions are honored).
+	matched := false
 	for _, entry := range closure {
 		state := b.nfa.State(entry.nfaID)
 		if state == nil {
+			continue
+		}
+		if state.Kind() == nfa.StateMatch {
+			matched = true
+			continue
+		}
+		if matched {
 			continue
 		}
 
